@@ -44,6 +44,8 @@ class Executor(Base, ExprMixin, StmtMixin, CallMixin, StrMixin, SpecMixin):
         self.loop_depth = 0
         self.callee_envs = {}
         self.heap_old = {}
+        self.try_stack = []
+        self.handled = []
 
     def sym_comprehension(self, *a):
         return self.unit.sym_comprehension(self, *a)
@@ -230,6 +232,11 @@ class Unit:
                 farr = ex.th.uf("attr#arr_" + key, Ref, z3.ArraySort(Int, ex.sort_of(ek)))
                 ex.pc.append(flen(base.t) >= 0)
                 return VList(flen(base.t), farr(base.t), ek)
+            if rk.startswith("opt["):
+                inner = rk[4:-1]
+                fn = ex.th.uf("attr?_" + key, Ref, Bool)
+                fv = ex.th.uf("attr_" + key, Ref, ex.sort_of(inner))
+                return VOpt(fn(base.t), ex.wrap(fv(base.t), inner.split(":")[0], inner.split(":")[1] if ":" in inner else None))
             kind = rk.split(":")[0]
             f = ex.th.uf("attr_" + key, Ref, ex.sort_of(rk))
             return ex.wrap(f(base.t), kind, rk.split(":")[1] if ":" in rk else None)
@@ -320,7 +327,25 @@ class Unit:
         raise GenError("next()")
 
     def list_sort(self, ex, lst, kwargs):
-        raise GenError("list.sort")
+        """assumed contract of list.sort() (no key): the list becomes a sorted permutation of itself.
+        Witnesses: perm / perm_inv arrays with new[k] == old[perm[k]], perm_inv[perm[k]] == k."""
+        if kwargs or not isinstance(lst, VList) or isinstance(lst.elem, tuple):
+            raise GenError("list.sort with key / on a concrete list")
+        n = lst.length
+        old = lst.arr
+        new = z3.FreshConst(old.sort(), "sorted")
+        perm = z3.FreshConst(z3.ArraySort(Int, Int), "perm")
+        inv = z3.FreshConst(z3.ArraySort(Int, Int), "perm_inv")
+        srt = ex.sort_of(lst.elem)
+        lt = ex.th.uf("ref_lt" if srt.eq(Ref) else "elem_lt", srt, srt, Bool)
+        nz = ex.z(n)
+        ex.hyps.append(FAll("k", 0, n, lambda c: FT(z3.And(
+            z3.Select(new, c) == z3.Select(old, z3.Select(perm, c)), z3.Select(perm, c) >= 0, z3.Select(perm, c) < nz,
+            z3.Select(inv, z3.Select(perm, c)) == c,
+            z3.Implies(c + 1 < nz, z3.Not(lt(z3.Select(new, c + 1), z3.Select(new, c)))))), "list.sort"))
+        lst.arr = new
+        ex.sort_witness = (perm, inv, old)
+        return None
 
     def spec_log(self, ex, n):
         raise GenError("log() spec function not available")
